@@ -39,11 +39,17 @@ def run(ctx):
         ctx.tlc_mc('Pack_MC', 'Pack_MCq.cfg', workers=4, timeout=T)
         ctx.tlc_mc('Pack_MC', 'Pack_MCeq.cfg', workers=4, timeout=T)
     else:
+        # coverage: every action enabled by the configuration's Ops must have fired (the pack configs switch
+        # Expire off and the expire config switches Pack off, by construction)
         r = ctx.tlc_mc('Pack_MC', 'Pack_MC.cfg', workers=4, timeout=4 * T, coverage=True)
-        if r.get('zero_actions'):
-            raise vlib.Broken('vacuous coverage: %s' % r['zero_actions'])
+        z = [a for a in (r.get('zero_actions') or []) if '<Expire ' not in a]
+        if z:
+            raise vlib.Broken('vacuous coverage: %s' % z)
         ctx.tlc_mc('Pack_MC', 'Pack_MCb.cfg', workers=4, timeout=4 * T)
-        ctx.tlc_mc('Pack_MC', 'Pack_MCe.cfg', workers=4, timeout=4 * T)
+        r = ctx.tlc_mc('Pack_MC', 'Pack_MCe.cfg', workers=4, timeout=4 * T, coverage=True)
+        z = [a for a in (r.get('zero_actions') or []) if '<Pack ' not in a]
+        if z:
+            raise vlib.Broken('vacuous coverage: %s' % z)
     b = vlib.build(DRIVER)
     # 2. every enumerated row against the real code
     if q:
